@@ -90,7 +90,8 @@ func VH_C07_ServerSYN() {
 // VH_C10_ServerScript: the server handshake fed with a script of `steps`
 // symbolic handshake-phase packets - each one a SYN with an arbitrary window
 // byte, a SYNACK, a DATA packet, an ACK, or a pause longer than the handshake
-// timeout (silence) - followed by SYNACK and one DATA packet. Whatever the
+// timeout (silence) - followed by a clean SYN(7), SYNACK and one DATA packet
+// (once the transport behaves a handshake succeeds). Whatever the
 // history (re-sent SYNs, SYNs of an earlier connection, invalid SYNs between
 // valid ones, timeouts), a server that reaches the data phase uses a window
 // that some SYN of the history proposed and that the protocol can represent,
@@ -119,7 +120,10 @@ func VH_C10_ServerScript() {
 			w.in = append(w.in, nil) // pause marker
 		}
 	}
-	w.in = append(w.in, synack, data)
+	// then the transport behaves: a client's clean SYN, its SYNACK, data
+	finalSyn, _ := (&PacketSYN{N: 7}).Serialize()
+	proposed = append(proposed, 7)
+	w.in = append(w.in, finalSyn, synack, data)
 	w.pause = 2 * time.Second
 	ctx, cancel := context.WithCancel(context.Background())
 	type res struct {
@@ -135,7 +139,7 @@ func VH_C10_ServerScript() {
 	select {
 	case r = <-done:
 	case <-time.After(30 * time.Second):
-		vReach("script-ignored")
+		vAssert(false, "the server did not complete a handshake although a clean SYN / SYNACK exchange followed the disturbed history (it no longer reads or answers)")
 		cancel()
 		return
 	}
